@@ -6,6 +6,21 @@ import PyaisVerif.Lemmas.FieldRT
 namespace Model
 open Py Spec
 
+theorem createFold_full (env : Env) (kw : List (String × Val)) : ∀ (fs : List Field) (acc : List (String × Val)),
+    (∀ f ∈ fs, ∃ v, kwGet kw f.name = some v ∧ forceType f v = .ok v ∧ applyConv env f.attrConv v = .ok v) →
+    fs.foldlM (init := acc) (createStep env kw) =
+      .ok (acc ++ fs.map fun f => (f.name, (kwGet kw f.name).getD .none))
+  | [], acc, _ => by simp [List.foldlM, pure, Except.pure]
+  | f :: fs, acc, h => by
+    obtain ⟨v, h1, h2, h3⟩ := h f (List.mem_cons_self ..)
+    rw [List.foldlM_cons]
+    have hs : createStep env kw acc f = .ok (acc ++ [(f.name, v)]) := by
+      simp only [createStep, h1, h2, h3, bind, Except.bind]
+    rw [hs]
+    simp only [bind, Except.bind]
+    rw [createFold_full env kw fs (acc ++ [(f.name, v)]) (fun g hg => h g (List.mem_cons_of_mem _ hg))]
+    simp [h1]
+
 /-- **`create(**kwargs)` with every field given and well-typed** builds the message with exactly
 the given values, in table order.  Well-typed = `__force_type` and the attrs-level converter leave
 the value alone. -/
@@ -14,7 +29,9 @@ theorem createConcrete_full (env : Env) (c : String) (fs : List Field) (kw : Lis
       applyConv env f.attrConv v = .ok v) :
     createConcrete env c fs kw =
       .ok { cls := c, fields := fs.map fun f => (f.name, (kwGet kw f.name).getD .none) } := by
-  sorry
+  unfold createConcrete
+  rw [createFold_full env kw fs [] hall]
+  simp [bind, Except.bind]
 
 /-- a field that is not given takes the table default (fields whose default is `None` are
 required: `TypeError`) -/
@@ -24,7 +41,10 @@ theorem createConcrete_default (env : Env) (c : String) (f : Field) (kw : List (
       (match f.default with
        | .none => .error .typeError
        | d => (applyConv env f.attrConv d).map fun d' => { cls := c, fields := [(f.name, d')] }) := by
-  sorry
+  unfold createConcrete
+  simp only [List.foldlM_cons, List.foldlM_nil, createStep, hmiss]
+  cases hd : f.default <;> simp only [bind, Except.bind, pure, Except.pure, Except.map, List.nil_append] <;>
+    (first | rfl | (cases applyConv env f.attrConv _ <;> rfl))
 
 /-- **`encode_dict` is `create` followed by `encode_msg`**, with the type taken from `type` or
 `msg_type` and looked up in `MSG_CLASS`. -/
@@ -33,31 +53,54 @@ theorem encodeDict_eq (env : Env) (maxLen : Nat) (kw : List (String × Val)) (ta
     (ht : getAisType kw = .ok t) (ht0 : 0 ≤ t) (hcls : env.msgClass.lookup t.toNat = some cls)
     (hm : create env cls kw = .ok m) :
     encodeDict env maxLen kw talker chan = encodeMsg env maxLen m talker chan := by
-  sorry
+  unfold encodeDict encodeMsg
+  split
+  · rfl
+  split
+  · rfl
+  have : ¬ t < 0 := by omega
+  simp only [ht, bind, Except.bind, this, if_false, hcls, hm]
 
 /-- `get_ais_type` prefers `type` over `msg_type` -/
 theorem getAisType_type (kw : List (String × Val)) (t : Int)
     (h : kwGet kw "type" = some (.int t)) : getAisType kw = .ok t := by
-  sorry
+  simp [getAisType, h, Val.toInt?]
 
 theorem getAisType_msg_type (kw : List (String × Val)) (t : Int)
     (h0 : kwGet kw "type" = none) (h : kwGet kw "msg_type" = some (.int t)) : getAisType kw = .ok t := by
-  sorry
-
+  simp [getAisType, h0, h, Val.toInt?]
 /-! ## wire quantisation (exact arithmetic; values in micro-units, i.e. six decimals) -/
+
+/-- rounding to the nearest integer is at most half a unit away -/
+theorem rhe_err (p q : Int) (hq : 0 < q) : 2 * (roundHalfEvenDiv p q * q - p).natAbs ≤ q.natAbs := by
+  have h1 := Int.emod_add_mul_ediv p q
+  have h2 := Int.emod_nonneg p (show q ≠ 0 by omega)
+  have h3 := Int.emod_lt_of_pos p hq
+  have h4 : (p / q + 1) * q = q * (p / q) + q := by rw [Int.add_mul, Int.mul_comm]; omega
+  have h5 : (p / q) * q = q * (p / q) := Int.mul_comm _ _
+  unfold roundHalfEvenDiv
+  simp only
+  split
+  · rw [h5]; omega
+  · split
+    · rw [h4]; omega
+    · split
+      · rw [h5]; omega
+      · rw [h4]; omega
 
 /-- **Positions (1/10000 min and 1/10 min as degrees)**: the wire value is the nearest integer to
 `v · k` — at most half a step away. -/
-theorem quant_round (m : Int) (k : Nat) (hk : 0 < k) :
+theorem quant_round (m : Int) (k : Nat) (_hk : 0 < k) :
     let wire := roundHalfEvenDiv (m * k) MICRO
     2 * (wire * MICRO - m * k).natAbs ≤ MICRO.natAbs := by
-  sorry
+  exact rhe_err (m * k) MICRO (by decide)
 
 /-- … and decoding the wire value gives the six-decimal number nearest to `wire / k` -/
 theorem quant_round_back (wire : Int) (k : Nat) (hk : 0 < k) :
     let dec := roundHalfEvenDiv (wire * MICRO) k
     2 * (dec * k - wire * MICRO).natAbs ≤ k := by
-  sorry
+  have := rhe_err (wire * MICRO) k (by omega)
+  simpa using this
 
 /-- **Tenths (speed, course, draught, 1/10-minute corrections)**: the wire value is `v · 10`
 truncated toward zero — less than one step away, never beyond `v` -/
@@ -65,15 +108,41 @@ theorem quant_trunc (m : Int) :
     let wire := truncDiv (m * 10) MICRO
     (wire * MICRO).natAbs ≤ (m * 10).natAbs ∧ (m * 10).natAbs - (wire * MICRO).natAbs < MICRO.natAbs ∧
     (0 ≤ m → 0 ≤ wire) ∧ (m ≤ 0 → wire ≤ 0) := by
-  sorry
+  simp only [truncDiv, MICRO]
+  rcases Int.le_total 0 m with h | h
+  · rw [Int.tdiv_eq_ediv_of_nonneg (by omega)]
+    omega
+  · have : (m * 10).tdiv 1000000 = -((-(m * 10)) / 1000000) := by
+      rw [← Int.tdiv_eq_ediv_of_nonneg (by omega), Int.neg_tdiv, Int.neg_neg]
+    rw [this]
+    omega
+
+theorem rhe_lit_near (p r q : Int) (hq : q = 1000000) (h : 2 * (p - r * 1000000).natAbs < 1000000) :
+    roundHalfEvenDiv p q = r := by
+  subst hq
+  simp only [roundHalfEvenDiv]
+  by_cases h1 : 2 * (p % 1000000) < 1000000
+  · rw [if_pos h1]; omega
+  · rw [if_neg h1]
+    by_cases h2 : 2 * (p % 1000000) > 1000000
+    · rw [if_pos h2]; omega
+    · rw [if_neg h2]
+      by_cases h3 : p / 1000000 % 2 = 0
+      · rw [if_pos h3]; omega
+      · rw [if_neg h3]; omega
 
 /-- a value that is wire-representable is encoded to exactly its wire value (positions) -/
 theorem quant_round_fixed (r : Int) (k : Nat) (hk : k = 600000 ∨ k = 600) :
     roundHalfEvenDiv (roundHalfEvenDiv (r * MICRO) k * k) MICRO = r := by
-  sorry
+  have hpos : (0 : Int) < k := by rcases hk with rfl | rfl <;> decide
+  have h := rhe_err (r * MICRO) k hpos
+  apply rhe_lit_near _ _ _ rfl
+  simp only [MICRO] at h ⊢
+  rcases hk with rfl | rfl <;> omega
 
 /-- … and tenths -/
 theorem quant_trunc_fixed (r : Int) : truncDiv ((r * 100000) * 10) MICRO = r := by
-  sorry
-
+  simp only [truncDiv, MICRO]
+  have : r * 100000 * 10 = r * 1000000 := by omega
+  rw [this, Int.mul_tdiv_cancel _ (by decide)]
 end Model
